@@ -26,6 +26,11 @@ CHECKS["C13"] = dict(
   text="All keyed-hash sites of package gcs (builder, Match, ZipMatchAny, HashMatchAny) feed the same range-reduction function with the hi/lo halves of the same modulus field and use the reduced value only for append / compare / map key; no reduced hash, decoded delta or sum of deltas reaches a narrowing conversion on any path (the strategies cannot disagree on a low-32-bit collision); MatchAny forwards its own arguments unchanged. Necessary structural conditions of 'no false negatives / strategies agree'; the Golomb-Rice codec round trip itself is not decided.",
   note="Trusted: siphash.Sum64, bstream reader. Not decided: bit-stream codec arithmetic, sortedness.",
   ref="§3 C13")
+CHECKS["C12"] = dict(
+  technique="must-pass-through branch facts (CFG edge-removal reachability) + linear entailment over available-load atoms; dominance of cursor guards; who-writes-the-latch scan",
+  text="Every non-nil return of ExtractMatches lies on all paths behind each rejection test of the statement with exactly the stated relation (count != 0, count <= MaxTxnCount, #hashes <= count, #bits >= #hashes; after the traversal: latch clear, ceil(bitsUsed/8) = ceil(#bits/8), hashesUsed = #hashes); in the traversal both cursor reads are proved in range on every path, their out-of-range edges set the latch and return, equal children set the latch; the latch is only ever stored true after construction. Field roles are discovered from the code (constructor, cursor reads), not named. Value-level root equality is not decided.",
+  note="Trusted: HashMerkleBranches, Hash.IsEqual. Assumes 64-bit or 32-bit int as configured; len() of the slices fits the uint32 conversions the code performs (the conversions are treated as opaque atoms, so no wrap is assumed for the proof).",
+  ref="§3 C12, §2.2, §2.3")
 
 NA_REASON = {
  "C17": "Every clause with content is a statement about IEEE-754 rounding of f*1e8, a/10^k and shortest-decimal printing over 2.1e15 integers; no fact about the shape of amount.go implies or refutes it, and the two shape-level clauses (NaN/Inf rejected, unit labels) are already pinned by the suite (DESIGN.md §4).",
